@@ -37,8 +37,9 @@ fn run_one(host: &mut Popen, sc: &Scenario, script: Vec<u32>, rng: Option<Rng>, 
     for call in &sc.calls {
         let mut c = comm.take().unwrap();
         if let Some(l) = call.limit {
-            c = c.limit_size(l * sc.unit);
-            eff_limit = Some(l);
+            // (limits "as good as none": the byte count saturates, the trace carries a number TLC can hold)
+            c = c.limit_size(l.saturating_mul(sc.unit));
+            eff_limit = Some(l.min(1 << 30));
         }
         if let Some(t) = call.tlim {
             c = c.limit_time(Duration::from_nanos(t));
